@@ -135,7 +135,8 @@ fn generate(scen_seed: u64) -> Scenario {
             }
             threads.push(calls);
         }
-        return Scenario { pass: rng.chance(1, 3), register: false, first_touch: false, threads };
+        // (the register stress runs before the threads start, in a third of these scenarios too)
+        return Scenario { pass: rng.chance(1, 3), register: rng.chance(1, 3), first_touch: false, threads };
     }
     let nthreads = rng.range(2, 4);
     let register = rng.chance(1, 3);
